@@ -1,5 +1,6 @@
 import Bermuda.Model.Json
 import Bermuda.Model.Ops
+import Bermuda.Model.AllOps
 import Bermuda.Spec.C01
 open Lean Bermuda
 
@@ -41,6 +42,87 @@ def opFromJson (j : Json) : Except String Op := do
   | "rightEdge" => return .rightEdge
   | o => throw s!"unknown op {o}"
 
+
+/-! ### `Op2` (chains over all modelled operations, request op "chain2")
+
+Argument names follow the drivers of the respective properties (C04 basis, C08 aggregate, C09 summarize,
+C10 join family, C11 selection, C15 extension); operand triangles travel inline as cell lists. -/
+
+def optField (j : Json) (k : String) : Option Json :=
+  match j.getObjVal? k with
+  | .ok v => if v.isNull then none else some v
+  | .error _ => none
+
+def strListJ (j : Json) : Except String (List String) := do
+  (← j.getArr?).toList.mapM (·.getStr?)
+
+def optStrListF (j : Json) (k : String) : Except String (Option (List String)) :=
+  match optField j k with
+  | some v => (strListJ v).map some
+  | none => .ok none
+
+def resOf (j : Json) (k : String) : Except String (Option (Int × String)) :=
+  match optField j k with
+  | some v => do
+    let a ← v.getArr?
+    if a.size != 2 then throw "resolution: want [quantity, unit]"
+    return some (← jInt? a[0]!, ← a[1]!.getStr?)
+  | none => .ok none
+
+def dateOr (j : Json) (k : String) (dflt : Date) : Except String Date :=
+  match optField j k with
+  | some v => Date.fromJson v
+  | none => .ok dflt
+
+def optRatF (j : Json) (k : String) : Except String (Option Rat) :=
+  match optField j k with
+  | some v => (ratFromJson v).map some
+  | none => .ok none
+
+def op2FromJson (j : Json) : Except String Op2 := do
+  match (← (← j.getObjVal? "op").getStr?) with
+  | "toIncremental" => return .toIncremental
+  | "toCumulative" => return .toCumulative
+  | "aggregate" =>
+    return .aggregate Transc.id {
+      periodRes := ← resOf j "pres", evalRes := ← resOf j "eres",
+      periodOrigin := ← dateOr j "porigin" ⟨1999, 12, 31⟩, evalOrigin := ← dateOr j "eorigin" ⟨1999, 12, 31⟩,
+      prem := ← (← j.getObjVal? "prem").getBool? }
+  | "summarize" => return .summarize Transc.id [] (← (← j.getObjVal? "prem").getBool?)
+  | "merge" =>
+    return .merge (JoinType.ofString? (← (← j.getObjVal? "ty").getStr?)) (← optStrListF j "on")
+      (← cellsFromJson (← j.getObjVal? "b"))
+  | "coalesce" =>
+    return .coalesce (← (← (← j.getObjVal? "ts").getArr?).toList.mapM cellsFromJson)
+  | "addStatics" =>
+    return .addStatics (← cellsFromJson (← j.getObjVal? "b")) (← strListJ (← j.getObjVal? "statics"))
+  | "periodMerge" =>
+    let suffix ← match optField j "suffix" with
+      | some v => (v.getStr?).map some
+      | none => pure none
+    return .periodMerge (← cellsFromJson (← j.getObjVal? "b")) suffix
+  | "rightTri" =>
+    let lags ← match optField j "lags" with
+      | some v => (do let a ← v.getArr?; a.toList.mapM ratFromJson).map some
+      | none => pure none
+    return .makeRightTriangle lags (← (← j.getObjVal? "unit").getStr?)
+  | "rightDiag" =>
+    return .makeRightDiagonal (← (← (← j.getObjVal? "dates").getArr?).toList.mapM Date.fromJson)
+      (← (← j.getObjVal? "hist").getBool?)
+  | "fill" => return .fillForwardGaps (← optInt? j "res") (← (← j.getObjVal? "none").getBool?)
+  | "backfill" =>
+    return .backfill (← strListJ (← j.getObjVal? "statics")) (← optInt? j "res") (← jInt? (← j.getObjVal? "minLag"))
+  | "clipFull" =>
+    let unit ← match optField j "unit" with
+      | some u => do pure (LagUnit.parse? (← u.getStr?))
+      | none => pure (some LagUnit.month)
+    return .clipFull { minEval := ← optDate? j "minEval", maxEval := ← optDate? j "maxEval",
+                       minPeriod := ← optDate? j "minPeriod", maxPeriod := ← optDate? j "maxPeriod",
+                       minDev := ← optRatF j "minDev", maxDev := ← optRatF j "maxDev", unit := unit }
+  | "splitNth" => return .splitNth (← strListJ (← j.getObjVal? "keys")) (← (← j.getObjVal? "i").getNat?)
+  | "sliceNth" => return .sliceNth (← (← j.getObjVal? "i").getNat?)
+  | _ => return .base (← opFromJson j)
+
 /-- Spec verdicts on an implementation output (absent when the implementation raised) -/
 def specJson (j : Json) : Except String Json := do
   match j.getObjVal? "impl" with
@@ -70,6 +152,13 @@ def handle (j : Json) : Except String Json := do
     let ops ← (← (← j.getObjVal? "ops").getArr?).toList.mapM opFromJson
     let r := match Triangle.ofCells cells with
       | .ok t => run t ops
+      | .error e => .error e
+    return Json.mkObj [("model", exceptToJson cellsToJson r), ("spec", ← specJson j)]
+  | "chain2" =>
+    let cells ← cellsFromJson (← j.getObjVal? "cells")
+    let ops ← (← (← j.getObjVal? "ops").getArr?).toList.mapM op2FromJson
+    let r := match Triangle.ofCells cells with
+      | .ok t => run2 t ops
       | .error e => .error e
     return Json.mkObj [("model", exceptToJson cellsToJson r), ("spec", ← specJson j)]
   | o => throw s!"unknown op {o}"
